@@ -6,7 +6,7 @@ NaN-iff from the assumed contract, and obliviousness.  A bounded run-time stand-
 import ast
 import z3
 from pyvc import xreal as xr
-from pyvc.numexec import NumExec, Num, Bool, Obj, Unsupported
+from pyvc.numexec import NumExec, Num, Bool, Obj, Unsupported, ANALYSIS
 from pyvc.solve import Obl, static, undecided
 
 INTERP = z3.Function("INTERP", z3.RealSort(), z3.IntSort(), z3.IntSort(), z3.RealSort())   # x, column of X, column of Y
@@ -97,7 +97,7 @@ def build(run):
         ic = [z3.And(t >= 0, t <= 1) for t in ex.interp_terms] + [z3.And(interp.v >= 0, interp.v <= 1)]
         run.add(Obl(f"{fq}/ensures.nan_iff", pre + ic, y.nan == x.nan, fn=fq, meta=rp("nan_iff")))
         run.add(Obl(f"{fq}/ensures.range", pre + ic + [z3.Not(x.nan)], z3.And(xr.fin(y), y.v >= 0, y.v <= h.v), fn=fq, meta=rp("range")))
-    except Unsupported as ex_:
+    except ANALYSIS as ex_:
         run.add(undecided(f"{fq}/subset", f"outside the verified subset: {ex_}", fn=fq))
     # bounded stand-in for the assumed interp contract and the element-wise claim on the real class
     run.bounded("term.Discrete.membership/interp_contract.runtime", "contracts.terms_discrete", "bounded", [dict(seed=run.seed, n=300 if run.tier == "quick" else 5000)],
